@@ -629,9 +629,14 @@ def step (line impl : String) : String × Verdict :=
     | _, _, _, _ => bad
   | ["fmtu", t, i, flags, w, p] =>
     match W.find t, i.toNat?, parseSpec flags w p with
-    | some _, some _, some _ =>
+    | some T, some i, some sp =>
+      let sym : Text := (T.units[i]?.map (·.symbol)).getD []
+      let exp := "h" ++ hexOfText (Fmt.padStr sp sym)
       match impl.splitOn " " with
-      | [o, r] => (r ++ " " ++ r, check (o == r) "a unit is not displayed as its symbol under ordinary string formatting rules")
+      | [o, r] =>
+        -- the model of `Formatter::pad` and std's own formatting of the symbol string must both agree
+        (exp ++ " " ++ exp, (check (o == r) "a unit is not displayed as its symbol under ordinary string formatting rules").and
+          (check (o == exp) "unit display differs from symbol padded/truncated as a string"))
       | _ => (impl, .skip "unparsed impl output")
     | _, _, _ => bad
   | ["fmtrt", t, i, a] =>
@@ -825,6 +830,12 @@ def step (line impl : String) : String × Verdict :=
             if unitOracle then refV.and unitV else magV
       (out, v)
     | _, _, _, _, _, _, _ => bad
+  | ["asq", t, i] =>
+    match W.find t, i.toNat? with
+    | some _, some i =>
+      let out := qStr C (Q.new R.one i)
+      (out, check (impl == out) "a unit taken as a quantity is not one of itself")
+    | _, _ => bad
   | ["new", t, i, a] =>
     match W.find t, i.toNat?, C.parse a with
     | some _, some i, some a =>
